@@ -83,7 +83,7 @@ pub fn run(ctx: &Ctx, rep: &mut Report) {
                     if kind != "outcome_parse_err" || !rec.contains("Unexpected token") {
                         rep.nontrivial(&text);
                     }
-                    if rep.samples.len() < 6 && i % 1013 == 7 {
+                    if rep.samples.is_empty() || (rep.samples.len() < 6 && i % 1013 == 7) {
                         rep.sample(J::obj(vec![("input", J::s(&text)), ("outcome", J::s(rec.chars().take(160).collect::<String>()))]));
                     }
                 }
